@@ -92,6 +92,12 @@ func (t *traceRec) replicaStep(x *runner, s *step, r *replica) {
 		e["p"], e["after"], e["start"] = s.P, s.After, s.Start
 	case "Announce":
 		e["p"], e["i"], e["start"] = s.P, s.I, s.Start
+	case "AddBatchTail":
+		a := s.A
+		if a == "" {
+			a = "o"
+		}
+		e["i"], e["j"], e["kind"], e["other"], e["a"], e["cs"], e["via"] = s.I, s.J, s.Kind, s.Other, a, csJSON(s.Cs), s.Via
 	}
 	t.emit(e)
 }
@@ -126,7 +132,12 @@ func pick[T any](rng *rand.Rand, xs []T) T { return xs[rng.Intn(len(xs))] }
 // restrictions of AclChain.tla apply: only join requests of accounts without permission are
 // accepted, only accounts holding a permission are re-permissioned, nobody is made a guest.
 func (x *runner) candidate(rng *rand.Rand, author string, kinds []string) (content, bool) {
-	p := x.w.refProj[len(x.w.log)-1]
+	return x.candidateAt(rng, author, kinds, len(x.w.log))
+}
+
+// candidateAt: the same for the state after record at
+func (x *runner) candidateAt(rng *rand.Rand, author string, kinds []string, at int) (content, bool) {
+	p := x.w.refProj[at-1]
 	accs := append([]string{"o"}, x.b.Accounts...)
 	k := pick(rng, kinds)
 	c := content{K: k, Acc: "-", P: "-", T: "-"}
@@ -379,22 +390,72 @@ func (x *runner) randomStep(rng *rand.Rand) *step {
 			s.Other = 1 + rng.Intn(r.applied())
 			return s
 		}
+	case d < 99:
+		if cs, a, ok := x.randomBad(rng, r.applied()); ok {
+			return &step{Act: "Tamper", R: r.name, Kind: "unaccepted", A: a, Cs: cs}
+		}
 	default:
-		if r.applied() == n {
-			authors := append([]string{"o"}, x.b.Accounts...)
-			a := pick(rng, authors)
-			p := w.refProj[n-1]
-			if pp := p.Perm[a]; pp != "admin" && pp != "owner" {
-				return &step{Act: "Tamper", R: r.name, Kind: "unaccepted", A: a, Cs: []content{{K: "Invite", Acc: "-", P: "none", T: "req"}}}
+	}
+	// a batch of accepted records with a refusable tail
+	if r.applied() < n && rng.Intn(3) > 0 {
+		i := 1 + rng.Intn(r.applied()+1)
+		j := r.applied() + 1 + rng.Intn(n-r.applied())
+		via := pick(rng, []string{"direct", "headUpdate", "response"})
+		if rng.Intn(2) == 0 {
+			if cs, a, ok := x.randomBad(rng, j); ok {
+				return &step{Act: "AddBatchTail", R: r.name, I: i, J: j, Kind: "unaccepted", A: a, Cs: cs, Via: via}
 			}
-			c1, ok := x.candidate(rng, a, []string{"AccountRemove", "PermChange", "RequestAccept", "RequestDecline", "InviteRevoke"})
-			if ok {
-				bad := pick(rng, []string{"InviteRevoke", "RequestDecline"})
-				return &step{Act: "Tamper", R: r.name, Kind: "unaccepted", A: a, Cs: []content{c1, {K: bad, Acc: "-", P: "-", T: "-"}}}
+		}
+		k := pick(rng, []string{"byte", "id", "prevId", "authorSig", "acceptorSig", "nonHeadPrev", "gap"})
+		s := &step{Act: "AddBatchTail", R: r.name, I: i, J: j, Kind: k, A: "o", Via: via}
+		switch k {
+		case "byte", "id", "authorSig":
+			if j < n {
+				return s
+			}
+		case "acceptorSig":
+			if j < n && r.cfg.Mode == "partial" {
+				return s
+			}
+		case "prevId", "nonHeadPrev":
+			if j < n {
+				s.Other = rng.Intn(j)
+				return s
+			}
+		case "gap":
+			if j+2 <= n {
+				s.Other = j + 2 + rng.Intn(n-j-1)
+				return s
 			}
 		}
 	}
 	return nil
+}
+
+// randomBad: contents of a record the acceptor refuses in the state after record at - a first content
+// its author may issue there followed by one that names nothing, or an invite by a non-manager
+func (x *runner) randomBad(rng *rand.Rand, at int) ([]content, string, bool) {
+	authors := append([]string{"o"}, x.b.Accounts...)
+	a := pick(rng, authors)
+	p := x.w.refProj[at-1]
+	if pp := p.Perm[a]; pp != "admin" && pp != "owner" {
+		if rng.Intn(3) == 0 {
+			return []content{{K: "Invite", Acc: "-", P: "none", T: "req"}}, a, true
+		}
+		for _, b := range authors {
+			if p.Perm[b] == "owner" {
+				a = b
+			}
+		}
+	}
+	for try := 0; try < 8; try++ {
+		c1, ok := x.candidateAt(rng, a, []string{"AccountRemove", "PermChange", "RequestAccept", "RequestDecline", "InviteRevoke"}, at)
+		if ok {
+			bad := pick(rng, []string{"InviteRevoke", "RequestDecline"})
+			return []content{c1, {K: bad, Acc: "-", P: "-", T: "-"}}, a, true
+		}
+	}
+	return nil, "", false
 }
 
 // freeRun: one random history of the given length on three replicas of random configuration
